@@ -267,6 +267,27 @@ def run_model(rec, idx):
             ok = False
         if not ok:
             diffs.append({'where': 'from_dataframe', 'what': ['span-lookup'], 'got': got_kind})
+    if not diffs:
+        # the table is a snapshot: later writes to the model do not reach it, edits of the table do not reach the model
+        frozen = df.copy(deep=True)
+        for nme in ms['names']:
+            arr = mdl.__dict__['_' + nme]
+            if arr.dtype.kind in 'fi':
+                arr[:] = arr + 1
+            elif arr.dtype.kind == 'b':
+                arr[:] = ~arr
+        if not frozen.equals(df):
+            diffs.append({'where': 'table', 'what': 'shares-memory-with-model', 'dt': 'any'})
+        else:
+            before = {nme: mdl.__dict__['_' + nme].copy() for nme in ms['names']}
+            try:
+                for j in range(df.shape[1]):
+                    if df.dtypes.iloc[j].kind in 'fi':
+                        df.iloc[:, j] = df.iloc[:, j] * 0 - 5
+            except Exception:
+                pass
+            if any(not np.array_equal(before[nme], mdl.__dict__['_' + nme], equal_nan=(before[nme].dtype.kind == 'f')) for nme in ms['names']):
+                diffs.append({'where': 'table', 'what': 'shares-memory-with-model', 'dt': 'any'})
     return diffs
 
 
